@@ -57,6 +57,8 @@ TREES = [
     # dependent neighbour with it (raise X from Y, a handler's type with its name)
     "try:\n    a\nexcept* E as e:\n    b(c)\nelse:\n    d\ng",
     "def f():\n    try:\n        raise L(p) from x.c\n    except (K, V) as k:\n        raise\n    return r",
+    # multi-byte names replaced by code of the same byte length and another character length (nothing moves in bytes, everything behind moves in characters)
+    "r = [höhe, länge, ü, ß(ä)]; s = ö",
 ]
 for _t in TREES:
     ast.parse(_t)
@@ -87,6 +89,8 @@ def code_for(node, big):
     a = node.a
     if isinstance(a, ast.stmt):
         return 'if q:\n    r\n    u' if big else 'pass'
+    if isinstance(a, ast.Name) and not a.id.isascii() and not big:
+        return a.id.translate({0xe4: 'ae', 0xf6: 'oe', 0xfc: 'ue', 0xdf: 'ss'})
     if isinstance(a, ast.expr):
         if isinstance(getattr(a, 'ctx', None), (ast.Store, ast.Del)):
             return '[n1, n2]' if big else 'X'
@@ -223,7 +227,12 @@ def run_script(fst, ti, si, script, res, consumer='walk'):
                     enabled.append(ok is not None)
                     if ok is None:
                         return ('not-enabled', step)
-                    if ok != 'send' and live_vs_parse(root, 'Module'):
+                    if ok not in ('send', 'noop') and live_vs_parse(root, 'Module'):
+                        if LAST_EDIT and _fine_on_fresh_tree(fst, *LAST_EDIT[0]):
+                            # the very same request on a fresh tree of the same source is sound: what broke it is the state the walk
+                            # (and the edits made during it) left behind
+                            return bad('edit-during-walk-breaks-tree-although-sound-on-a-fresh-tree',
+                                       f'step {step}: {act} on {LAST_EDIT[0][1]} of {LAST_EDIT[0][0]!r}\nnow={root.src!r}')
                         res.outcomes['consumer-edit-itself-breaks-C01(reported-by-C01)'] += 1
                         return ('not-enabled', step)
                     if ok == 'send':
@@ -284,9 +293,35 @@ def _under_new(n, root, default):
     return False
 
 
+LAST_EDIT = []  # [(source before, path of the target, 'replace' | 'remove', code)] of the latest single-node edit made by a consumer
+
+
+def _path_of(t):
+    p = []
+    while t.parent is not None:
+        p.append((t.pfield.name, t.pfield.idx))
+        t = t.parent
+    return p[::-1]
+
+
+def _fine_on_fresh_tree(fst, src, path, kind, code):
+    from ..fstnav import node_at
+    try:
+        fresh = fst.FST(src, 'exec')
+        n = node_at(fresh, path)
+        if kind == 'remove':
+            n.remove(norm=True)
+        else:
+            n.replace(code, norm=True)
+        return not live_vs_parse(fresh, 'Module')
+    except Exception:  # noqa: BLE001
+        return False
+
+
 def do_action(fst, root, g, item, act, yielded, default, Dkeys, st, allv, resent, excused):
     """Perform the consumer's action; returns None if the action is not enabled (its own edit raised or no such target)."""
     kind, tgt = act
+    del LAST_EDIT[:]
     if kind == 'send':
         if isinstance(item, tuple) and item[1] and tgt is False:
             pass
@@ -295,6 +330,10 @@ def do_action(fst, root, g, item, act, yielded, default, Dkeys, st, allv, resent
             for d in g.walk(True, self_=False):
                 resent.add(id(d))
         return 'send'
+    if kind == 'replace-leaf':
+        if not isinstance(g.a, ast.Name) or (isinstance(item, tuple) and item[1]) or id(g) in excused:
+            return 'noop'
+        kind = 'replace'
     try:
         if kind == 'del-slice':  # the current element and / or its siblings deleted through the parent's slice interface
             par, pf = g.parent, g.pfield
@@ -362,6 +401,7 @@ def do_action(fst, root, g, item, act, yielded, default, Dkeys, st, allv, resent
             par = t.parent
             par_a = par.a if par is not None else None
             below = [(a_, getattr(a_, 'f', None)) for a_ in ast.walk(par_a)] if par_a is not None else []
+            LAST_EDIT.append((root.src, _path_of(t), 'remove', None))
             t.remove(norm=True)
             if par is not None and par.a is not par_a and par_a is not None:
                 # normalisation collapsed the container onto its surviving operand: the parent counts as replaced, everything that
@@ -378,6 +418,7 @@ def do_action(fst, root, g, item, act, yielded, default, Dkeys, st, allv, resent
                 code = '[n1 for n1 in n2 if n3]' if isinstance(t.a, ast.expr) and isinstance(getattr(t.a, 'ctx', ast.Load()), ast.Load) else None
             if code is None:
                 return None
+            LAST_EDIT.append((root.src, _path_of(t), 'replace', code))
             new = t.replace(code, norm=True)
             return ('replaced-cur', new) if (t is g and new is not None) else True
         if kind == 'replace-slice':
@@ -426,6 +467,11 @@ def explore(fst, ti, si, depth, actions, res, consumer='walk'):
                 elif isinstance(r, tuple) and r[0] == 'not-enabled':
                     res.outcomes['action-not-enabled'] += 1
     rec({}, 0, n0, 0)
+    if depth == 1:  # the everyday rewriting loop: every name met during the walk is replaced (as many edits as there are names, caches
+        # filled by earlier edits are in play for later ones)
+        r = run_script(fst, ti, si, {k: ('replace-leaf', 'cur') for k in range(n0)}, res, consumer)
+        if isinstance(r, tuple) and r[0] == 'not-enabled':
+            res.outcomes['action-not-enabled'] += 1
 
 
 SEND_SEQS = [(False,), (True,), (True, False), (False, True), (False, False, True), (True, True, False)]
